@@ -30,6 +30,7 @@ import (
 	"path/filepath"
 	"strings"
 	"sync"
+	"sync/atomic"
 	"time"
 )
 
@@ -99,9 +100,12 @@ type Db interface {
 }
 
 type DbImpl struct {
-	rootBucket          string
-	reloadLock          sync.RWMutex
-	db                  *bbolt.DB
+	rootBucket string
+	reloadLock sync.RWMutex
+	db         *bbolt.DB
+	// path of the database file, as given to Open. Kept apart from the handle, which a restore closes and replaces:
+	// it can be read without the reload lock (which callers inside a transaction already hold)
+	path                atomic.Value
 	restoreListeners    concurrenz.CopyOnWriteSlice[func()]
 	txCompleteListeners concurrenz.CopyOnWriteSlice[func(ctx MutateContext)]
 }
@@ -126,6 +130,7 @@ func (self *DbImpl) Open(path string) error {
 	if self.db, err = bbolt.Open(path, 0600, &options); err != nil {
 		return fmt.Errorf("unable to open controller database [%s] (%w)", path, err)
 	}
+	self.path.Store(path)
 
 	return nil
 }
@@ -258,7 +263,8 @@ func (self *DbImpl) RootBucket(tx *bbolt.Tx) (*bbolt.Bucket, error) {
 }
 
 func (self *DbImpl) GetDefaultSnapshotPath() string {
-	path := self.db.Path()
+	// not read off the handle: a concurrent restore swaps it, and a closed handle has an empty path
+	path, _ := self.path.Load().(string)
 	path += "-" + time.Now().Format("20060102-150405")
 	return path
 }
@@ -362,7 +368,8 @@ func (self *DbImpl) RestoreFromReader(snapshot io.Reader) {
 }
 
 func (self *DbImpl) persistSnapshot(snapshot io.Reader) (string, error) {
-	tmpPath := self.db.Path() + ".snapshot." + uuid.NewString()
+	dbPath, _ := self.path.Load().(string)
+	tmpPath := dbPath + ".snapshot." + uuid.NewString()
 	f, err := os.Create(tmpPath)
 	if err != nil {
 		return "", fmt.Errorf("failed to create snapshot file [%v] (%w)", tmpPath, err)
